@@ -5,6 +5,7 @@ FUNCTIONS = [
     {"q": "uxarray.grid.geometry._get_latlonbox_width", "standin": {}},
     {"q": "uxarray.grid.geometry._insert_pt_in_latlonbox", "standin": {}},
 ]
+STANDINS = ["bounds"]
 ASSUMPTIONS = [
     "A-TRIG: sin/cos/asin/acos/atan2/sqrt/fmod are uninterpreted with the algebraic axioms listed in trusted_base",
 ]
